@@ -377,13 +377,50 @@ func ruleC12R1(c *Ctx) {
 	recT := c.P.pkgByRel["base"].Types.Scope().Lookup("LogRecord").Type()
 	st := recT.Underlying().(*types.Struct)
 	rel := c.P.Fn(aRelease)
-	rec := c.P.Fn("base.(*LogAllocator).recycleRecord")
-	recCalls := c.callsTo(rel, anchorPred("base.(*LogAllocator).recycleRecord"))
-	puts := c.callsTo(rec, extPred("(*sync.Pool).Put"))
-	if len(recCalls) != 1 || len(puts) != 1 {
-		c.bad("C12.R1", rel, "recycle path", rel.Pos(), "expected one recycleRecord call in Release and one Pool.Put in recycleRecord")
+	// the recycle path: from Release to the sync.Pool.Put that takes the record itself, through whatever helpers
+	isRecordPut := func(s ssa.CallInstruction) bool {
+		f := s.Common().StaticCallee()
+		if f == nil || extName(f) != "(*sync.Pool).Put" || len(s.Common().Args) < 2 {
+			return false
+		}
+		a := strip(s.Common().Args[1])
+		if mi, ok := a.(*ssa.MakeInterface); ok {
+			a = strip(mi.X)
+		}
+		return typeName(a.Type()) == "base.LogRecord"
+	}
+	type step struct {
+		fn     *ssa.Function
+		target ssa.CallInstruction
+	}
+	var chain []step
+	var findChain func(fn *ssa.Function, depth int) []step
+	findChain = func(fn *ssa.Function, depth int) []step {
+		if depth > 4 {
+			return nil
+		}
+		for _, s := range callsIn(fn) {
+			if isRecordPut(s) {
+				return []step{{fn, s}}
+			}
+		}
+		for _, s := range callsIn(fn) {
+			g := s.Common().StaticCallee()
+			if g == nil || g.Blocks == nil || !c.P.inUni[g] {
+				continue
+			}
+			if rest := findChain(g, depth+1); rest != nil {
+				return append([]step{{fn, s}}, rest...)
+			}
+		}
+		return nil
+	}
+	chain = findChain(rel, 0)
+	if len(chain) == 0 {
+		c.bad("C12.R1", rel, "recycle path", rel.Pos(), "no sync.Pool.Put of the record is reachable from Release")
 		return
 	}
+	recCalls := []ssa.CallInstruction{chain[0].target}
 	// producers: universe functions calling NewRecord
 	var producers []*ssa.Function
 	for _, s := range c.callSitesOf(anchorPred(aNewRecord)) {
@@ -397,8 +434,36 @@ func ruleC12R1(c *Ctx) {
 		// (a) cleared before the record goes back to the pool
 		cleared := false
 		why := ""
-		check := func(fn *ssa.Function, target ssa.Instruction) bool {
+		var mustClear func(fn *ssa.Function, depth int) bool
+		var check func(fn *ssa.Function, target ssa.Instruction, depth int) bool
+		mustClear = func(fn *ssa.Function, depth int) bool {
+			if depth > 3 || fn.Blocks == nil {
+				return false
+			}
+			okAll := false
+			for _, b := range fn.Blocks {
+				for _, in := range b.Instrs {
+					if r, isRet := in.(*ssa.Return); isRet {
+						if !check(fn, r, depth+1) {
+							return false
+						}
+						okAll = true
+					}
+				}
+			}
+			return okAll
+		}
+		check = func(fn *ssa.Function, target ssa.Instruction, depth int) bool {
 			var clears []ssa.Instruction
+			// calls to module helpers that clear the field on all their paths
+			for _, s := range callsIn(fn) {
+				if s.(ssa.Instruction) == target {
+					continue
+				}
+				if g := s.Common().StaticCallee(); g != nil && c.P.inUni[g] && g != fn && relPkg(fnPkgPath(g)) == "base" && mustClear(g, depth+1) {
+					clears = append(clears, s)
+				}
+			}
 			eachInstr(fn, func(in ssa.Instruction) {
 				stI, ok := in.(*ssa.Store)
 				if !ok {
@@ -434,10 +499,11 @@ func ruleC12R1(c *Ctx) {
 			hit, _ := q.Reach(entryOf(fn), func(in ssa.Instruction) bool { return in == target })
 			return hit == nil
 		}
-		if check(rel, recCalls[0]) {
-			cleared, why = true, "cleared in Release on every path to recycleRecord"
-		} else if check(rec, puts[0]) {
-			cleared, why = true, "cleared in recycleRecord before Pool.Put"
+		for _, st := range chain {
+			if check(st.fn, st.target, 0) {
+				cleared, why = true, "cleared in "+anchorName(st.fn)+" (directly or by a helper that clears it on all paths) on every path to the record's Pool.Put"
+				break
+			}
 		}
 		if !cleared && f.Name() == "_refCount" {
 			// zero by construction when recycled: recycleRecord only behind the `_refCount > 0` false edge and the `< 0` panic
@@ -1120,9 +1186,12 @@ func init() {
 	// the same rule is a necessary condition of faithful header parsing (C09) and of exact timestamps (C13)
 	register("C09", "C12.R6", ruleC12R6)
 	register("C13", "C12.R6", ruleC12R6)
+	register("C10", "C12.R6", ruleC12R6) // the serializer keeps nothing of a record (a cached block keyed by record strings decodes to another record's fields)
 }
 
-var c12R6Reviewed = map[string]string{}
+var c12R6Reviewed = map[string]string{
+	"base.(*FieldSetExtractor).Extract|element of field base.FieldSetExtractor.fieldSetBuffer of parameter ex": "the extractor's scratch slice is transient by contract: Extract overwrites every element on each call and hands the slice out as a transient value — it is itself a taint source of this rule family (FieldSetExtractor.Extract), so whoever keeps an element is reported there",
+}
 
 func ruleC12R6(c *Ctx) {
 	_, fns := c.runtimeSet()
@@ -1193,6 +1262,15 @@ func ruleC12R6(c *Ctx) {
 					}
 				case *ssa.Global:
 					val, where = x.Val, "global "+a.Name()
+				case *ssa.IndexAddr:
+					// an element of a slice / array held in a field of a long-lived object
+					if u, ok := strip(a.X).(*ssa.UnOp); ok && u.Op == token.MUL {
+						if fa, ok := strip(u.X).(*ssa.FieldAddr); ok && typeName(fa.X.Type()) != "base.LogRecord" {
+							if ok, w := longLived(fa.X); ok {
+								val, where = x.Val, "element of field "+fieldName(fa.X.Type(), fa.Field)+" of "+w
+							}
+						}
+					}
 				}
 			case *ssa.MapUpdate:
 				if ok, w := longLived(x.Map); ok {
